@@ -145,6 +145,40 @@ theorem C18_active_client_not_timed_out {σ : Type} (C : CacheOps σ) (limit rx 
     rw [h2]
     exact ⟨ih'.1, by rw [ih'.2]⟩
 
+/-- once a connection is closed (by the timeout or otherwise), later arrivals do nothing at all -/
+theorem tfeedSeq_closed {σ : Type} (C : CacheOps σ) (limit rx : Nat) (tc : TConn) (s : σ) (as : List (Nat × Nat × Bytes))
+    (hc : tc.conn.closed = true) :
+    (tfeedSeq C limit rx tc s as).1 = tc ∧ (tfeedSeq C limit rx tc s as).2.1 = s ∧
+    ∀ b ∈ (tfeedSeq C limit rx tc s as).2.2, b = [] := by
+  induction as with
+  | nil => exact ⟨rfl, rfl, by simp [tfeedSeq]⟩
+  | cons a rest ih =>
+    obtain ⟨t, now, chunk⟩ := a
+    have h1 : tfeed C limit rx now t tc s chunk = (tc, s, []) := by simp [tfeed, hc]
+    simp only [tfeedSeq, h1]
+    refine ⟨ih.1, ih.2.1, ?_⟩
+    intro b hb
+    rcases List.mem_cons.mp hb with hb | hb
+    · exact hb
+    · exact ih.2.2 b hb
+
+/-- **silence past the deadline ends the connection for good**: the first arrival at or after the pending deadline finds
+    the connection dropped — neither it nor anything after it is read, executed or answered, and the store stays what it
+    was; the outcome of the whole rest of the history is fixed at that moment -/
+theorem C18_silent_client_dropped {σ : Type} (C : CacheOps σ) (limit rx now t : Nat) (tc : TConn) (s : σ) (chunk : Bytes)
+    (later : List (Nat × Nat × Bytes)) (hc : tc.conn.closed = false) (ht : tc.deadline ≤ t) :
+    (tfeedSeq C limit rx tc s ((t, now, chunk) :: later)).1.conn = Conn.dead ∧
+    (tfeedSeq C limit rx tc s ((t, now, chunk) :: later)).2.1 = s ∧
+    ∀ b ∈ (tfeedSeq C limit rx tc s ((t, now, chunk) :: later)).2.2, b = [] := by
+  have h1 := tfeed_timed_out C limit rx now t tc s chunk hc ht
+  have h2 := tfeedSeq_closed C limit rx ⟨Conn.dead, tc.deadline⟩ s later (by simp [Conn.dead])
+  simp only [tfeedSeq, h1]
+  refine ⟨by rw [h2.1], h2.2.1, ?_⟩
+  intro b hb
+  rcases List.mem_cons.mp hb with hb | hb
+  · exact hb
+  · exact h2.2.2 b hb
+
 /-- whole acceptable requests make progress: a batch that starts with a complete frame on an idle connection with nothing
     buffered completes at least one request -/
 theorem progress_of_frame (limit : Nat) {fb : Bytes} {h : ReqHeader} (hf : IsFrame fb h) (rest : Bytes)
@@ -174,3 +208,5 @@ end Memc
 #print axioms Memc.tfeed_timed_out
 #print axioms Memc.C18_active_client_not_timed_out
 #print axioms Memc.progress_of_frame
+#print axioms Memc.tfeedSeq_closed
+#print axioms Memc.C18_silent_client_dropped
